@@ -18,6 +18,9 @@ inline unsigned long long next() { rng ^= rng << 13; rng ^= rng >> 7; rng ^= rng
 inline void maybe_yield() { if ((next() & 7) == 0) std::this_thread::yield(); }
 constexpr long NONE = -987654321L;
 // nested parse: while the hook is set, every rule functor of the outer parse runs a complete parse on the same parser object
+// functor state: every rule functor carries the salt of the parser object it was given to; a call through one object must only ever run that object's functors
+inline thread_local long expect_salt = 0; inline std::atomic<long> salt_bad{ 0 };
+inline void check_salt(long salt) { if (salt != expect_salt) ++salt_bad; }
 inline thread_local bool fresh_mode = false;     // isolated results: every call on an object without any history (a copy of a never-used parser)
 inline thread_local long (*nest_fn)(const std::string&) = nullptr;
 inline thread_local const std::string* nest_in = nullptr;
@@ -32,9 +35,9 @@ template<class T> long cval(const T& v)
     else if constexpr (std::is_same_v<T, ctpg::no_type>) return 7;
     else return long(v);
 }
-template<int R> struct H { template<class... A> long operator()(const A&... a) const { maybe_yield(); maybe_nest(); long h = R * 1000003L + 17; ((h = (h * 31 + cval(a)) % 2147483647L), ...); return h; } };
+template<int R> struct H { long salt = 0; template<class... A> long operator()(const A&... a) const { check_salt(salt); maybe_yield(); maybe_nest(); long h = R * 1000003L + 17; ((h = (h * 31 + cval(a)) % 2147483647L), ...); return h; } };
 struct Ctx { long k = 5; long calls = 0; };
-template<int R> struct HX { template<class C, class... A> long operator()(C& c, const A&... a) const { maybe_yield(); maybe_nest(); ++c.calls; long h = R * 1000003L + c.k; ((h = (h * 31 + cval(a)) % 2147483647L), ...); return h; } };
+template<int R> struct HX { long salt = 0; template<class C, class... A> long operator()(C& c, const A&... a) const { check_salt(salt); maybe_yield(); maybe_nest(); ++c.calls; long h = R * 1000003L + c.k; ((h = (h * 31 + cval(a)) % 2147483647L), ...); return h; } };
 struct TTf { long operator()(std::string_view sv) const { maybe_yield(); return long(sv.size()) * 13 + (sv.size() ? (unsigned char)sv[0] : 0); } };
 struct ystream { std::string text; template<class T> ystream& operator<<(const T& v) { maybe_yield(); std::ostringstream o; o << v; text += o.str(); return *this; } };
 template<const vf::lexspec* Sp> struct QuietLexer {
@@ -94,12 +97,13 @@ def emit_one(g, gi, runtime_ctor):
             else: args.append(tref[s[1]])
         txt = 'n%d(%s)' % (r.lhs, ', '.join(args))
         if r.prec: txt += '[%d]' % r.prec
-        txt += (' >>= vt::HX<%d>{}' % ri) if r.ftor == 'x' else (' >= vt::H<%d>{}' % ri)
+        txt += (' >>= vt::HX<%d>{ @SALT@ }' % ri) if r.ftor == 'x' else (' >= vt::H<%d>{ @SALT@ }' % ri)
         rules.append(txt)
     tail = ', use_lexer<vt::QuietLexer<&spec>>{}' if custom else ''
     decl = 'parser p(n%d, terms(%s), nterms(%s), rules(\n  %s\n)%s);' % (g.root, ', '.join(tref), ', '.join('n%d' % i for i in range(len(g.nts))), ',\n  '.join(rules), tail)
-    o.append('inline auto make() { ' + decl + ' return p; }')     # a fresh parser object built at run time by the calling thread
+    o.append('inline auto make(long SALT = 0) { ' + decl.replace('@SALT@', 'SALT') + ' return p; }')     # a fresh parser object built at run time by the calling thread
     o.append('inline const auto& pristine() { static const auto* q = new auto(make()); return *q; }')     # never used for any call: copies of it are objects without history
+    decl = decl.replace('@SALT@', '0')
     if runtime_ctor: o.append('inline const auto& get() { static const auto* q = new ' + decl.replace('parser p(', 'parser(', 1).rstrip(';') + '; return *q; }')
     else:
         o.append('constexpr ' + decl); o.append('inline const auto& get() { return p; }')
@@ -168,6 +172,7 @@ int main(int argc, char** argv)
     for (const Iv& iv : all) { size_t w = 0; for (size_t i = 0; i < active.size(); ++i) if (active[i].e > iv.s) active[w++] = active[i]; active.resize(w);
         for (const Iv& a : active) if (a.th != iv.th) ++pairs[iv.op > 5 ? 5 : iv.op]; active.push_back(iv); }
     std::printf("SUM calls %zu mismatches %ld hist_bad %ld image_changed %ld overlap %lld %lld %lld %lld %lld %lld\n", all.size(), mismatches.load(), hist_bad, image_changed, pairs[0], pairs[1], pairs[2], pairs[3], pairs[4], pairs[5]);
+    std::printf("SALT %ld\n", vt::salt_bad.load());
     for (auto& s : firstbad) std::printf("BAD %s\n", s.c_str());
     std::printf("END\n");
     return 0;
@@ -177,14 +182,15 @@ int main(int argc, char** argv)
 def emit_tu(gs, runtime):
     o = [PRE]
     for gi, g in enumerate(gs): o.append(emit_one(g, gi, gi in runtime))
-    nest = ('if (vt::fresh_mode && c.op <= 3) { auto q = g%d::pristine(); return vt::do_op<g%d::is_ctx>(q, c.op, c.in); } '
+    nest = ('if (c.op == 6) { auto q = g%d::make(777); vt::expect_salt = 777; vt::Res r = vt::do_op<g%d::is_ctx>(q, 0, c.in); vt::expect_salt = 0; return r; } '
+            'if (vt::fresh_mode && c.op <= 3) { auto q = g%d::pristine(); return vt::do_op<g%d::is_ctx>(q, c.op, c.in); } '
             'if (c.op == 5) { auto q0 = g%d::pristine(); vt::Res iso = vt::do_op<g%d::is_ctx>(q0, 0, c.in); vt::nest_in = &c.in; vt::nest_want = iso.v; vt::nest_calls = 0; vt::nest_bad = 0; '
             'vt::nest_fn = [](const std::string& s) { return vt::do_op<g%d::is_ctx>(g%d::get(), 0, s).v; }; vt::Res r = vt::do_op<g%d::is_ctx>(g%d::get(), 0, c.in); vt::nest_fn = nullptr; '
             'if (!(r == iso)) r.extra = -777777; else if (vt::nest_bad) r.extra = -777778; else r.extra = vt::nest_calls; return r; } ')
     def case(gi):
         old = ('if (c.op == 4) { auto q = g%d::make(); vt::Res r = vt::do_op<g%d::is_ctx>(q, 3, c.in); vt::Res r2 = vt::do_op<g%d::is_ctx>(q, 0, c.in); r.extra = r2.v; return r; } '
                'return vt::do_op<g%d::is_ctx>(g%d::get(), c.op, c.in);') % ((gi,) * 5)
-        return '    case %d: ' % gi + nest % ((gi,) * 8) + old
+        return '    case %d: ' % gi + nest % ((gi,) * 10) + old
     disp = '\n'.join(case(gi) for gi in range(len(gs)))
     imgs = '\n'.join('    case %d: return ctpg::verif::access::image(g%d::get());' % (gi, gi) for gi in range(len(gs)))
     o.append(MAIN.replace('%(dispatch)s', disp).replace('%(images)s', imgs).replace('%(ng)d', str(len(gs))))
@@ -238,6 +244,7 @@ def _worker(spec):
     for gi, g in enumerate(gs):
         for d in inputs_for(g, rnd, spec['n_inputs']):
             for op in (0, 1, 2): lines.append('%d %d %s' % (gi, op, eg.hexin(d)))
+        for d in inputs_for(g, rnd, 3)[:3]: lines.append('%d 6 %s' % (gi, eg.hexin(d)))     # a second object of the same type whose functors carry other state
         for d in inputs_for(g, rnd, 3)[:3]:
             if len(d) <= 400: lines.append('%d 5 %s' % (gi, eg.hexin(d)))     # nested: every functor of the outer parse parses the same text on the same object
         lines.append('%d 3 -' % gi)
@@ -277,6 +284,10 @@ def _worker(spec):
             nb = [w for w in nested if int(w[5]) in (-777777, -777778)]
             if nb: out['viol'].append((['site:nested@result'], 'a parse whose functors parse on the same parser object (single thread) %s: %d case(s), first grammar #%s' % (
                 'returns something else than in isolation' if int(nb[0][5]) == -777777 else 'disturbs the nested parses', len(nb), nb[0][1]), {'grammars': [g.to_json() for g in gs]}))
+            ms = re.search(r'SALT (\d+)', text)
+            if ms and int(ms.group(1)):
+                out['viol'].append((['site:functor-state@other-object'], '%d functor calls ran with the state of another parser object than the one parse was called on (two objects of one type with different functor state)' % int(ms.group(1)), {'grammars': [g.to_json() for g in gs]}))
+            C['calls_on_second_object_of_same_type'] += len([l for l in lines if l.split()[1] == '6'])
             bad = [l for l in text.split('\n') if l.startswith('BAD ') or l.startswith('HB ') or l.startswith('IMG ')]
             if mism: out['viol'].append((['site:threads@result'], '%d threads: %d of %d concurrent calls returned something else than in isolation: %s' % (nthreads, mism, calls, bad[:2]), {'grammars': [g.to_json() for g in gs], 'bad': bad}))
             if hist: out['viol'].append((['site:history@result'], 'single-threaded shuffled history: %d calls differ from their isolated results: %s' % (hist, bad[:2]), {'grammars': [g.to_json() for g in gs], 'bad': bad}))
